@@ -116,8 +116,26 @@ func (fv *FnV) evalConversion(st *State, call *ast.CallExpr, to types.Type) Val 
 		}
 		return Val{v.T, to}
 	case isFloatType(to) && isIntType(from):
-		fv.tag("int-to-float-exact")
-		return Val{fmt.Sprintf("(to_real %s)", v.T), to}
+		if _, ok := parseIntLit(v.T); ok || fv.spec {
+			return Val{fmt.Sprintf("(to_real %s)", v.T), to}
+		}
+		// int -> float64 rounds to nearest: uninterpreted i2f with the axioms below
+		// (exact up to 2^53, monotone, relative error 2^-53)
+		fv.declareI2F()
+		if fv.i2fCache == nil {
+			fv.i2fCache = map[string]string{}
+		}
+		if f, ok := fv.i2fCache[v.T]; ok {
+			return Val{f, to}
+		}
+		x := fv.name("iv", v.T, "Int")
+		f := fv.fresh("i2f", "Real")
+		// ground instances of the i2f axioms for this operand
+		fv.decls = append(fv.decls, fmt.Sprintf("(assert (= %s (i2f %s)))", f, x))
+		fv.decls = append(fv.decls, fmt.Sprintf("(assert (=> (and (<= (- 9007199254740992) %s) (<= %s 9007199254740992)) (= %s (to_real %s))))", x, x, f, x))
+		fv.decls = append(fv.decls, fmt.Sprintf("(assert (and (=> (>= %s 0) (>= %s 0.0)) (=> (<= %s 0) (<= %s 0.0)) (=> (>= %s 1) (>= %s 1.0)) (=> (<= %s (- 1)) (<= %s (- 1.0)))))", x, f, x, f, x, f, x, f))
+		fv.i2fCache[v.T] = f
+		return Val{f, to}
 	case isIntType(to) && isFloatType(from):
 		t := fv.name("f", v.T, "Real")
 		r := fmt.Sprintf("(ite (>= %s 0.0) (to_int %s) (- (to_int (- %s))))", t, t, t)
@@ -136,6 +154,13 @@ func (fv *FnV) evalConversion(st *State, call *ast.CallExpr, to types.Type) Val 
 	}
 	fv.unsupported(call, "conversion "+from.String()+" -> "+to.String())
 	return Val{fv.fresh("conv", fv.smt.sortOf(to)), to}
+}
+
+func (fv *FnV) declareI2F() {
+	fv.tag("i2f-axioms")
+	fv.uninterp("i2f", []string{"Int"}, "Real")
+	fv.smt.declareFun("ax_i2f_mono", "(assert (forall ((x Int) (y Int)) (! (=> (<= x y) (<= (i2f x) (i2f y))) :pattern ((i2f x) (i2f y)))))")
+	fv.smt.declareFun("ax_i2f_err", "(assert (forall ((x Int)) (! (and (<= (* 9007199254740992.0 (- (i2f x) (to_real x))) (ite (>= x 0) (to_real x) (to_real (- x)))) (<= (* 9007199254740992.0 (- (to_real x) (i2f x))) (ite (>= x 0) (to_real x) (to_real (- x))))) :pattern ((i2f x)))))")
 }
 
 func (fv *FnV) evalBuiltin(st *State, call *ast.CallExpr, name string) []Val {
@@ -520,7 +545,7 @@ func (fv *FnV) evalSpecCall(st *State, call *ast.CallExpr, name string, o *types
 			for k := 66; k >= 0; k-- {
 				body = fmt.Sprintf("(ite (= k %d) %s %s)", k, pow2(k).String(), body)
 			}
-			fv.smt.funDecls = append(fv.smt.funDecls, "(define-fun pow2f ((k Int)) Int "+body+")")
+			fv.smt.addFun("pow2f", "(define-fun pow2f ((k Int)) Int "+body+")")
 		}
 		return Val{fmt.Sprintf("(pow2f %s)", a.T), rt}
 	case "wrap64":
@@ -584,7 +609,7 @@ func (fv *FnV) defineSpecFunc(name string, sfd *ast.FuncDecl, o *types.Func) {
 		}
 	}
 	if sp != nil && sp.Opaque {
-		fv.smt.funDecls = append(fv.smt.funDecls, fmt.Sprintf("(declare-fun %s (%s) %s)", sname, strings.Join(sorts, " "), ret))
+		fv.smt.addFun(sname, fmt.Sprintf("(declare-fun %s (%s) %s)", sname, strings.Join(sorts, " "), ret))
 		return
 	}
 	// recursive?
@@ -604,11 +629,11 @@ func (fv *FnV) defineSpecFunc(name string, sfd *ast.FuncDecl, o *types.Func) {
 	body := fv.eval(dummy, sfd.Body.List[0].(*ast.ReturnStmt).Results[0])
 	fv.spec, fv.specStack, fv.noName = saveSpec, saveStack, saveNoName
 	if rec {
-		fv.smt.funDecls = append(fv.smt.funDecls, fmt.Sprintf("(declare-fun %s (%s) %s)", sname, strings.Join(sorts, " "), ret))
+		fv.smt.addFun(sname, fmt.Sprintf("(declare-fun %s (%s) %s)", sname, strings.Join(sorts, " "), ret))
 		app := "(" + sname + " " + strings.Join(names, " ") + ")"
-		fv.smt.funDecls = append(fv.smt.funDecls, fmt.Sprintf("(assert (forall (%s) (! (= %s %s) :pattern (%s))))", strings.Join(formals, " "), app, body.T, app))
+		fv.smt.addFun("def_"+sname, fmt.Sprintf("(assert (forall (%s) (! (= %s %s) :pattern (%s))))", strings.Join(formals, " "), app, body.T, app))
 	} else {
-		fv.smt.funDecls = append(fv.smt.funDecls, fmt.Sprintf("(define-fun %s (%s) %s %s)", sname, strings.Join(formals, " "), ret, body.T))
+		fv.smt.addFun(sname, fmt.Sprintf("(define-fun %s (%s) %s %s)", sname, strings.Join(formals, " "), ret, body.T))
 	}
 }
 
@@ -720,6 +745,37 @@ func (fv *FnV) evalClause(st *State, cl *Clause, li *loopInfo, extra map[string]
 		oldSt = fv.entry
 	}
 	return fv.evalWithEnv(st, cl, cur, old, oldSt)
+}
+
+// evalClauseAt evaluates a clause at a program point: locals resolved by scope lookup.
+func (fv *FnV) evalClauseAt(st *State, cl *Clause, pos token.Pos) string {
+	fr := fv.cur()
+	cur := map[string]Val{}
+	old := map[string]Val{}
+	for name, obj := range fv.frameVars(fr) {
+		if v, ok := st.vars[obj]; ok {
+			cur[name] = v
+		}
+		if fv.entry != nil {
+			if v, ok := fv.entry.vars[obj]; ok {
+				old[name] = v
+			}
+		}
+	}
+	scope := fv.prog.Pkg.Scope().Innermost(pos)
+	for _, p := range fv.clauseParams(cl) {
+		if _, ok := cur[p.Name()]; ok {
+			continue
+		}
+		if scope != nil {
+			if _, obj := scope.LookupParent(p.Name(), pos); obj != nil {
+				if v, ok := st.vars[obj]; ok {
+					cur[p.Name()] = v
+				}
+			}
+		}
+	}
+	return fv.evalWithEnv(st, cl, cur, old, fv.entry)
 }
 
 // evalClauseEntry: clause over entry values of parameters (requires, panics)
